@@ -4,6 +4,7 @@
   All theorems are for every shift, every prior mask, every glyph id / range (no enumeration).
 -/
 import RbModel.Lemmas.Digest
+import RbModel.Lemmas.GsubCoverage
 
 namespace RbModel.Digest
 
@@ -346,3 +347,54 @@ example : Digest.mayHave (lookupDigest [4, 0, 9] [.ranges [(10, 20)]]) (bufferDi
     = false := by decide
 
 end RbModel.Digest
+
+/-! ## end-to-end: skipping is a no-op of the lookup interpreter (Gsub.lean) -/
+
+namespace RbModel.Gsub
+open RbModel RbModel.Digest
+
+/-- the digest `SubstLookup::parse` builds for a lookup of the interpreter model -/
+def Lookup.digest (shifts : List Nat) (l : Lookup) : Digest.Digest :=
+  lookupDigest shifts (l.subtables.map fun st => Coverage.glyphs st.coverage)
+
+/-- **Per-position prefilter.** If the lookup's digest does not report the current glyph, applying the lookup
+    at this position (`SubstLookup::apply`, any nesting level, any recursion callback) leaves the whole apply
+    context unchanged and reports "not applied" — exactly what the skipped call would have produced. -/
+theorem C10_skip_position_is_noop (shifts : List Nat) (recurse : Ctx → Nat → M (Ctx × Bool)) (full : Bool)
+    (c : Ctx) (l : Lookup) (cur : Info) (hcur : c.buf.info[c.buf.idx]? = some cur)
+    (hskip : Digest.Digest.mayHaveGlyph shifts (l.digest shifts) (cur.gid % 65536) = false) :
+    applySubtables recurse full c l.subtables = .ok (c, false) := by
+  apply applySubtables_not_covered recurse full c l.subtables cur hcur
+  intro st hst hmem
+  have hwf : ∀ cv ∈ l.subtables.map (fun st => Coverage.glyphs st.coverage), cv.WF := by
+    intro cv hcv
+    obtain ⟨s, _, rfl⟩ := List.mem_map.mp hcv
+    trivial
+  have := C10_skip_position_sound shifts _ hwf (cur.gid % 65536) hskip (Coverage.glyphs st.coverage)
+    (List.mem_map.mpr ⟨st, hst, rfl⟩)
+  simp [Coverage.covers] at this
+  exact this hmem
+
+/-- **Whole-lookup prefilter.** If the lookup digest and a digest that is valid for the buffer do not intersect,
+    the lookup applies at no position of the buffer. -/
+theorem C10_skip_lookup_is_noop (shifts : List Nat) (recurse : Ctx → Nat → M (Ctx × Bool)) (full : Bool)
+    (c : Ctx) (l : Lookup) (bd : Digest.Digest) (hbd : bd.length = shifts.length)
+    (hinv : ∀ x ∈ c.buf.info, Digest.Digest.mayHaveGlyph shifts bd (x.gid % 65536) = true)
+    (hskip : Digest.Digest.mayHave (l.digest shifts) bd = false)
+    (cur : Info) (hcur : c.buf.info[c.buf.idx]? = some cur) :
+    applySubtables recurse full c l.subtables = .ok (c, false) := by
+  apply applySubtables_not_covered recurse full c l.subtables cur hcur
+  intro st hst hmem
+  have hwf : ∀ cv ∈ l.subtables.map (fun st => Coverage.glyphs st.coverage), cv.WF := by
+    intro cv hcv
+    obtain ⟨s, _, rfl⟩ := List.mem_map.mp hcv
+    trivial
+  have hmemcur : cur ∈ c.buf.info := List.mem_of_getElem? hcur
+  have := C10_skip_lookup_sound shifts _ hwf bd hbd (c.buf.info.map fun x => x.gid % 65536)
+    (by intro g hg; obtain ⟨x, hx, rfl⟩ := List.mem_map.mp hg; exact hinv x hx) hskip
+    (cur.gid % 65536) (List.mem_map.mpr ⟨cur, hmemcur, rfl⟩) (Coverage.glyphs st.coverage)
+    (List.mem_map.mpr ⟨st, hst, rfl⟩)
+  simp [Coverage.covers] at this
+  exact this hmem
+
+end RbModel.Gsub
